@@ -652,6 +652,11 @@ func runSeq(c Case) Out {
 	}
 	cc1 := newConn(c)
 	out.NodeOf = probe(cc1, c.Nodes, c.Keys)
+	if c.Api == 2 {
+		// the connection bound to a session shares the cache (the session is the database handle,
+		// which the harness's callbacks never use)
+		cc1 = cc1.WithSession(nil)
+	}
 	var ch1 cache.Cache
 	if c.Layer == "cache" {
 		ch1 = newCache(c)
